@@ -19,6 +19,14 @@
                        latin-1, strictly and without a second attempt (PEP 3333: `value.encode("latin1")` gives the bytes back)
   fromObjectFilter     the conjuncts of the filter in `Config.from_object`'s dict comprehension (which attributes of the
                        object are dropped before `from_mapping`)
+  fromMappingGuards    the statements of `Config.from_mapping`'s loop in front of `try: setattr(config, key, value) except
+                       AttributeError: pass` that skip a key (none in the pinned source; `if not hasattr(config, key): continue`
+                       is read as `.readable`), with
+  readableKeys / unreadableKeys
+                       the names bound in the body of `class Config` that can / cannot be read on a fresh instance (annotated
+                       without a value, or a property without a getter: `application_path`, `cert_reqs`)
+  inetIsV6             the test of `socket.socket(socket.AF_INET6 if <test> else socket.AF_INET, type_)` in `_create_sockets`,
+                       translated as a function of the bind string as given, the bind string without brackets and the parsed host
   redirectPathSource   the scope key `HTTPToHTTPSRedirectMiddleware._new_url` builds the path of the Location from
                        (`raw_path` = the request target as sent, or `path` = its percent-decoded form)
 
@@ -325,6 +333,155 @@ def from_object_filter(src: Path, ex: Any) -> Optional[List[str]]:
     return out
 
 
+def from_mapping_guards(src: Path, ex: Any) -> Optional[List[str]]:
+    fn = ex.find_def(ex.parse(src / "config.py"), "Config", "from_mapping")
+    if fn is None:
+        ex.fail("fromMappingGuards", "Config.from_mapping not found")
+        return None
+    loops = [s for s in fn.body if isinstance(s, ast.For)]
+    if len(loops) != 1 or _norm(loops[0].target) != "(key, value)" or _norm(loops[0].iter) != "mappings.items()" or loops[0].orelse:
+        ex.fail("fromMappingGuards", "from_mapping does not hold exactly one `for key, value in mappings.items():`")
+        return None
+    body = list(loops[0].body)
+    tr = body[-1] if body else None
+    if not (isinstance(tr, ast.Try) and [_norm(x) for x in tr.body] == ["setattr(config, key, value)"] and len(tr.handlers) == 1
+            and tr.handlers[0].type is not None and _norm(tr.handlers[0].type) == "AttributeError" and [_norm(x) for x in tr.handlers[0].body] == ["pass"]
+            and not tr.orelse and not tr.finalbody):
+        ex.fail("fromMappingGuards", "the loop does not end in `try: setattr(config, key, value) / except AttributeError: pass`")
+        return None
+    out = []
+    for st in body[:-1]:
+        t = _norm(st)
+        if t in ("if not hasattr(config, key):\n    continue", "if not hasattr(cls, key):\n    continue"):
+            out.append("readable")
+        else:
+            ex.fail("fromMappingGuards", f"unrecognised statement in front of the setattr: `{t.splitlines()[0][:80]}`")
+            return None
+    return out
+
+
+def config_key_readability(src: Path, ex: Any) -> Optional[tuple]:
+    cls = ex.find_def(ex.parse(src / "config.py"), "Config")
+    if cls is None:
+        ex.fail("readableKeys/unreadableKeys", "class Config not found")
+        return None
+    readable, unreadable = [], []
+    for st in cls.body:
+        if isinstance(st, ast.AnnAssign) and isinstance(st.target, ast.Name):
+            (readable if st.value is not None else unreadable).append(st.target.id)
+        elif isinstance(st, ast.Assign):
+            for t in st.targets:
+                if isinstance(t, ast.Name):
+                    v = st.value
+                    wo = isinstance(v, ast.Call) and _norm(v.func) == "property" and v.args and isinstance(v.args[0], ast.Constant) and v.args[0].value is None
+                    (unreadable if wo else readable).append(t.id)
+        elif isinstance(st, (ast.FunctionDef, ast.AsyncFunctionDef)):
+            if st.name not in readable:
+                readable.append(st.name)
+    return sorted(set(readable) - set(unreadable)), sorted(set(unreadable) - set(readable))
+
+
+def _str_chars(s: str) -> str:
+    return "[" + ", ".join("'" + ("\\" + c if c in "'\\" else c) + "'" for c in s) + "]"
+
+
+def inet_family_test(src: Path, ex: Any) -> Optional[str]:
+    """Lean term over `bind0` (the bind string as given), `bind` (brackets removed) and `host` (the parsed host)"""
+    fn = ex.find_def(ex.parse(src / "config.py"), "Config", "_create_sockets")
+    item = "inetIsV6"
+    if fn is None:
+        ex.fail(item, "Config._create_sockets not found")
+        return None
+    loops = [s for s in fn.body if isinstance(s, ast.For) and _norm(s.target) == "bind" and _norm(s.iter) == "binds"]
+    if len(loops) != 1:
+        ex.fail(item, "no single `for bind in binds:` in _create_sockets")
+        return None
+    chain = [s for s in loops[0].body if isinstance(s, ast.If) and _norm(s.test) == "bind.startswith('unix:')"]
+    if not chain or len(chain[0].orelse) != 1 or not isinstance(chain[0].orelse[0], ast.If) or _norm(chain[0].orelse[0].test) != "bind.startswith('fd://')":
+        ex.fail(item, "the loop does not start with `if bind.startswith('unix:') … elif bind.startswith('fd://') … else …`")
+        return None
+    branch = chain[0].orelse[0].orelse
+    env = {}                       # local name -> Lean term (booleans about the bind string)
+    plain = {}                     # local name -> the expression it was bound to (simple assignments)
+    cur = "bind0"                  # what `bind` denotes at this point of the branch
+    found = None
+
+    def strx(node: ast.AST) -> str:
+        t = _norm(node)
+        if t == "bind":
+            return cur
+        if t == "host" and "host" in env:
+            return "host"
+        raise ValueError(f"`{t[:60]}` is not the bind string or the parsed host")
+
+    def bx(node: ast.AST) -> str:
+        if isinstance(node, ast.Name) and node.id in env and env[node.id] is not None:
+            return env[node.id]
+        if isinstance(node, ast.BoolOp):
+            return "(" + (" && " if isinstance(node.op, ast.And) else " || ").join(bx(v) for v in node.values) + ")"
+        if isinstance(node, ast.UnaryOp) and isinstance(node.op, ast.Not):
+            return f"(!{bx(node.operand)})"
+        if isinstance(node, ast.Call) and isinstance(node.func, ast.Attribute) and node.func.attr in ("startswith", "endswith") and len(node.args) == 1 \
+                and not node.keywords and isinstance(node.args[0], ast.Constant) and isinstance(node.args[0].value, str):
+            f = "List.isPrefixOf" if node.func.attr == "startswith" else "List.isSuffixOf"
+            return f"({f} {_str_chars(node.args[0].value)} {strx(node.func.value)})"
+        if isinstance(node, ast.Compare) and len(node.ops) == 1 and isinstance(node.ops[0], (ast.In, ast.NotIn)) and isinstance(node.left, ast.Constant) \
+                and isinstance(node.left.value, str) and len(node.left.value) == 1:
+            c = node.left.value
+            t = f"({strx(node.comparators[0])}.contains '{c}')"
+            return t if isinstance(node.ops[0], ast.In) else f"(!{t})"
+        raise ValueError(f"`{_norm(node)[:80]}` is not a test this translator reads")
+
+    try:
+        for st in branch:
+            calls = [c for c in ast.walk(st) if isinstance(c, ast.Call) and _norm(c.func) == "socket.socket"]
+            if calls:
+                if not (isinstance(st, ast.Assign) and _norm(st.targets[0]) == "sock" and st.value is calls[0] and len(calls) == 1 and len(calls[0].args) == 2
+                        and not calls[0].keywords and _norm(calls[0].args[1]) == "type_"):
+                    raise ValueError("the socket is not created by `sock = socket.socket(<family>, type_)`")
+                fam = calls[0].args[0]
+                if isinstance(fam, ast.Name) and fam.id in plain:       # `family = … if … else …` on its own line
+                    fam = plain[fam.id]
+                if not isinstance(fam, ast.IfExp) or {_norm(fam.body), _norm(fam.orelse)} != {"socket.AF_INET6", "socket.AF_INET"}:
+                    raise ValueError(f"family `{_norm(fam)[:80]}` is not `socket.AF_INET6 if <test> else socket.AF_INET`")
+                t = bx(fam.test)
+                found = t if _norm(fam.body) == "socket.AF_INET6" else f"(!{t})"
+                break
+            if isinstance(st, ast.Assign) and len(st.targets) == 1 and isinstance(st.targets[0], ast.Name):
+                name = st.targets[0].id
+                if name == "bind":
+                    if _norm(st.value) != "bind.replace('[', '').replace(']', '')" or cur != "bind0":
+                        raise ValueError(f"`{_norm(st)[:80]}`: the bind string is rewritten in a way this translator does not read")
+                    cur = "bind"
+                else:
+                    plain[name] = st.value
+                    try:
+                        env[name] = bx(st.value)
+                    except ValueError:
+                        env[name] = None       # not a boolean about the bind string (fine unless the family test uses it)
+            elif isinstance(st, ast.Try):
+                # `host, port = …` in the body and in the handler(s): the parsed host
+                for sub in ast.walk(st):
+                    if isinstance(sub, ast.Assign) and isinstance(sub.targets[0], ast.Tuple):
+                        for e in sub.targets[0].elts:
+                            if isinstance(e, ast.Name):
+                                env[e.id] = None
+                    elif isinstance(sub, ast.Assign) and isinstance(sub.targets[0], ast.Name) and sub.targets[0].id in env:
+                        env[sub.targets[0].id] = None
+                if "host" not in env:
+                    raise ValueError("the try statement does not bind `host`")
+            else:
+                for sub in ast.walk(st):
+                    if isinstance(sub, ast.Name) and isinstance(sub.ctx, ast.Store):
+                        env[sub.id] = None
+        if found is None:
+            raise ValueError("no `sock = socket.socket(…)` in the inet branch")
+    except ValueError as e:
+        ex.fail(item, str(e))
+        return None
+    return found
+
+
 def redirect_path_source(src: Path, ex: Any) -> Optional[str]:
     fn = ex.find_def(ex.parse(src / "middleware" / "http_to_https.py"), "HTTPToHTTPSRedirectMiddleware", "_new_url")
     if fn is None:
@@ -406,6 +563,27 @@ def run(src: Path, ex: Any) -> dict:
         "the attribute filter of Config.from_object (config.py)",
         "/-- one conjunct of the filter -/\ninductive ObjClause | notModule | notDunder | notCallable",
         None if f is None else f"def fromObjectFilter : List ObjClause := [{', '.join('.' + c for c in f)}]", "ConfigSites")
+    g = from_mapping_guards(src, ex)
+    rk = config_key_readability(src, ex)
+    fam = inet_family_test(src, ex)
+    # always written (an unrecognised shape as `.unrecognised` / `[]` / `false` + an EXTRACT-FAIL line), so that only C19's tie breaks
+    # and the models of the other properties (which import HC.Pure.Config for the response headers) still build
+    more = ["",
+            "/-- a statement of `Config.from_mapping`'s loop, in front of `try: setattr(config, key, value) except AttributeError: pass`,",
+            "    that skips keys: `.readable` = `if not hasattr(config, key): continue`; `.unrecognised` = a loop this extractor cannot read -/",
+            "inductive MapClause | readable | unrecognised",
+            "deriving Repr, DecidableEq",
+            f"def fromMappingGuards : List MapClause := [{', '.join('.' + c for c in (g if g is not None else ['unrecognised']))}]",
+            "/-- names bound in the body of `class Config` that a fresh instance can read (`hasattr` is true) -/",
+            "def readableKeys : List String := [" + ", ".join(ex.q(k) for k in (rk[0] if rk is not None else [])) + "]",
+            "/-- names declared there that cannot be read: annotated without a value, or a property without a getter -/",
+            "def unreadableKeys : List String := [" + ", ".join(ex.q(k) for k in (rk[1] if rk is not None else [])) + "]",
+            "set_option linter.unusedVariables false in",
+            "/-- the test of `socket.socket(socket.AF_INET6 if … else socket.AF_INET, type_)` in `Config._create_sockets`:",
+            "    `bind0` = the bind string as given, `bind` = with the brackets removed, `host` = the parsed host"
+            + ("" if fam is not None else " (NOT RECOGNISED in the current source)") + " -/",
+            f"def inetIsV6 (bind0 bind host : List Char) : Bool :=\n  {fam if fam is not None else 'false'}"]
+    files["ConfigSites"] = files["ConfigSites"].replace("\nend HC.Extracted.ConfigSites\n", "\n".join(more + ["", "end HC.Extracted.ConfigSites", ""]))
     ex.CURRENT[0] = "RedirectSites"
     p = redirect_path_source(src, ex)
     files["RedirectSites"] = _file(
